@@ -322,11 +322,13 @@ def item_bounds(it, files):
     lower = {f for f in files if wild(pat, name(f))}
     upper = {f for f in files if wild(pat, name(f)) or wild(pat + '/part*', name(f))}
     literal = not any(c in pat for c in '*?')
-    if literal and pat:
-        # an item naming a directory written by a multi-partition save: its part files
-        inside = [f for f in files if name(f).startswith(pat + '/') and '/' not in name(f)[len(pat) + 1:]]
-        if any(posixpath.basename(f) == '_SUCCESS' for f in inside):
-            lower |= {f for f in inside if posixpath.basename(f).startswith('part')}
+    if pat:
+        # an item naming -- literally or through its wildcards -- a directory written by a multi-partition save
+        # (a directory holding a _SUCCESS marker): that directory's part files
+        dirs = {posixpath.dirname(f) for f in files if posixpath.basename(f) == '_SUCCESS' and '/' in f}
+        for d in dirs:
+            if wild(pat, name(d)):
+                lower |= {f for f in files if posixpath.dirname(f) == d and posixpath.basename(f).startswith('part')}
     surviving = lower
     if defect_shaped(it):
         lp = lit_prefix(it)
@@ -520,8 +522,26 @@ def mk_tree(triples):
         g in keep for g in files if posixpath.dirname(g) == posixpath.dirname(f)) else PLAIN for f in keep]
 
 
+SIBLINGS = [('out', ['oak', 'oat', 'ou', 'outx', 'o.t']), ('data', ['dat', 'date', 'd.ta', 'dota']),
+            ('run1', ['run2', 'run', 'r.n1']), ('logs', ['log.txt', 'lags', 'logs.txt'])]
+
+
+def gen_siblings(rng):
+    """a dataset directory and plain files with similar names next to it"""
+    d, sibs = rng.choice(SIBLINGS)
+    parent = rng.choice(['', '', 'D/', 'x/y/'])
+    n = rng.randint(1, 3)
+    out = [(parent + d + f'/part-{i:05d}', '' if rng.random() < 0.4 else f'row {i}\n', gen_attr(rng)) for i in range(n)]
+    out.append((parent + d + '/_SUCCESS', '', PLAIN))
+    for f in rng.sample(sibs, rng.randint(1, 2)):
+        out.append((parent + f, gen_content(rng, parent + f), gen_attr(rng)))
+    return out
+
+
 def gen_tree(rng):
     triples = []
+    if rng.random() < 0.4:
+        triples += gen_siblings(rng)
     for _ in range(rng.randint(1, 4)):
         if rng.random() < 0.4:
             f = rng.choice(FILE_NAMES)
@@ -587,6 +607,42 @@ def rand_pattern(rng, name):
     return s
 
 
+def cover_patterns(a, b):
+    """patterns built from two names that match both: '?' at the differing positions, '*' between the common ends"""
+    out = []
+    if len(a) == len(b) and a != b:
+        out.append(''.join(x if x == y else '?' for x, y in zip(a, b)))
+    i = 0
+    while i < min(len(a), len(b)) and a[i] == b[i]:
+        i += 1
+    j = 0
+    while j < min(len(a), len(b)) - i and a[-1 - j] == b[-1 - j]:
+        j += 1
+    out.append(a[:i] + '*' + (a[len(a) - j:] if j else ''))
+    if i:
+        out.append(a[:i] + '?' * (len(a) - i))
+    return out
+
+
+def sibling_cover_patterns(files):
+    """patterns that cover a dataset directory and a plain file next to it at once"""
+    dsets = sorted({posixpath.dirname(f) for f in files if posixpath.basename(f) == '_SUCCESS' and '/' in f})
+    out = []
+    for d in dsets:
+        parent = posixpath.dirname(d)
+        for f in files:
+            if posixpath.dirname(f) == parent and not f.startswith(d + '/'):
+                out += cover_patterns(d, f)
+    return [q for q in dict.fromkeys(out) if ok_item(q) and not q.startswith('/')]
+
+
+SIB_FILES = ['D/log.txt', 'D/oak', 'D/out/_SUCCESS', 'D/out/part-00000', 'D/out/part-00001', 'log.txt', 'oak', 'oat.txt',
+             'ou', 'out/_SUCCESS', 'out/part-00000', 'out/part-00001', 'out/part-00002']
+SIB_TREE = (SIB_FILES, ['l\n', '', '', 'r0\n', '', 'l\n', 'oak', '', 'x', '', '', 'r1\n', 'r2\nr3\n'], [0] * 13)
+SIB_PATTERNS = ['o??', '*t', 'o*t', '?u?', 'o?', 'ou*', 'o*', '???', 'D/o??', 'D/*t', 'D/o*t', 'D/???', '?/o??', '*/o??', 'D/o?k,D/o?t',
+                'log.txt,o??', 'o??,nonexistent', ' o?? , D/*t', 'oak,ou?', 'o??,o??', 'file://o??,D/o??', 'o?t', 'oa?', 'D/ou?', 'D/oak']
+
+
 def styled(rng, pat, style=None):
     """relative / ./-relative / absolute, with or without file://"""
     style = rng.randrange(6) if style is None else style
@@ -621,6 +677,7 @@ def tree_cases(rng, tree, per_name_all, n_random, n_comma, n_odd=6):
             pats += rng.sample(sw, min(len(sw), 6))
     for _ in range(n_random):
         pats.append(rand_pattern(rng, rng.choice(names)))
+    pats += sibling_cover_patterns(files)
     pats += ['nonexistent', 'nonexistent/x*', '*', '*/*', '?', '', 'part*', '*/part*', '_SUCCESS', '*_SUCCESS']
     # odd spellings (outside the property's quantifier, judged by the correspondence only): doubled separators,
     # '.' components, trailing separators
@@ -669,6 +726,12 @@ def load_corpus():
 def generate(rng, tier):
     quick = tier == 'quick'
     cases = load_corpus()
+    # first in the stream: one item that matches a plain file AND names a dataset directory next to it
+    for q in SIB_PATTERNS:
+        for st in (0, 1, 2, 3, 4) if ',' not in q else (0,):
+            cases.append((RES, ROOT_SYM) + SIB_TREE + (styled(rng, q, st) if st else q,))
+    for q in sibling_cover_patterns(SIB_FILES):
+        cases.append((RES, ROOT_SYM) + SIB_TREE + (styled(rng, q),))
     # documentation-style tree: every single substitution on every name, all styles for the literals
     for q in names_of(DOC_FILES) + ['out/', 'out/sub', 'foo://x', 'a.txt,a.txt', ' a.txt , out ', 'out//part*', 'out/./part*',
                                   'a.txt/x*', 'a.txt/', './a.txt', '.', './', 'd*/x.txt', 'da?a/x.txt', '*/x.txt', '?/x.txt',
